@@ -19,6 +19,7 @@ type c13Round struct {
 	Attempts   []string `json:"attempts"`  // outcome of each following attempt: refuse | timeout | reset | neg-close-header | neg-close-auth | neg-close-bind | permanent-auth | ok
 	ResumeOK   bool     `json:"resume_ok"` // server accepts <resume/> on the good connection
 	LongOutage bool     `json:"long_outage,omitempty"`
+	OnTick     bool     `json:"fault_on_a_keepalive_tick,omitempty"`
 }
 
 type c13Scenario struct {
@@ -70,6 +71,8 @@ func runC13(e *Engine, g G, o RunOpt) RunInfo {
 			rd.Attempts = append(rd.Attempts, "ok")
 		}
 		rd.ResumeOK = g.Bool("resumeok")
+		// the session ends at the very instant a keepalive is due
+		rd.OnTick = g.Pct("fault-on-tick", 15)
 		sc.Rounds = append(sc.Rounds, rd)
 	}
 	if g.Pct("stop-early", 20) {
@@ -140,6 +143,7 @@ func runC13(e *Engine, g G, o RunOpt) RunInfo {
 	stopped := false
 	stopEarly := false
 	var sm *xmpp.StreamManager
+	var lastUp time.Duration
 
 	established := func() []*SrvConn {
 		var out []*SrvConn
@@ -207,6 +211,7 @@ func runC13(e *Engine, g G, o RunOpt) RunInfo {
 		}
 		sm = xmpp.NewStreamManager(w.Client, func(s xmpp.Sender) {
 			postConnects++
+			lastUp = e.Now()
 			e.Logf("cb.postconnect", "#%d", postConnects)
 		})
 		e.Go("sm.Run", func() {
@@ -228,6 +233,12 @@ func runC13(e *Engine, g G, o RunOpt) RunInfo {
 				break
 			}
 			e.Sleep(time.Duration(rd.AfterMs)*time.Millisecond + 555*time.Microsecond)
+			if rd.OnTick {
+				ka := time.Duration(sc.Client.KeepaliveNs)
+				k := (e.Now()-lastUp)/ka + 1
+				e.Sleep(lastUp + k*ka - e.Now())
+				e.Probe("c13.fault_on_keepalive_tick")
+			}
 			nEst := len(established())
 			tFault := e.Now()
 			dialsBefore := e.Net.Dials
